@@ -9,10 +9,10 @@ BUILD_ARGS = {"scale": SCALE}
 SHA1_UNIT = ("alg-sha1.c", ["__CPROVER_file_local_alg_sha1_c_sha1_do_transform"], {"export_static": True})
 META = {
     "level": "other",
-    "explanation": "Source-level erasure obligations, each decided by CBMC on the real code: (a) do_crypt via crypt_r/crypt_rn from arbitrary internal/reserved/initialized: all zero after any call that reached a method (success or failure), bit-identical otherwise; (b) MD4/MD5/SHA-1/SHA-256/SHA-512/HMAC-SHA256 Final leave an all-zero context from an arbitrary context; (c) crypt_ra erases an undersized block before realloc (C14 harness); (d) crypt_gensalt_rn(rbytes=NULL) wipes the drawn bytes after the draw on success and on every failure path; (e) hmac_sha1_process_data wipes each stack temporary over its whole object and issues the expected number of wipes.",
-    "functions": ["do_crypt", "crypt_r", "crypt_rn", "MD4_Final", "MD5_Final", "sha1_finish_ctx", "SHA256_Final", "SHA512_Final", "HMAC_SHA256_Final", "crypt_gensalt_rn", "get_random_bytes", "hmac_sha1_process_data"],
-    "bounds": {"setting": "<= 8 symbolic bytes (a)", "contexts": "arbitrary (b)", "HMAC key": "lengths 0, 20, 64, 65, 70 (e)", "count/output_size": "symbolic (d)"},
-    "outside": ["machine stack residue and compiler spill copies (not observable by a source-level checker)", "locals of yescrypt/PBKDF2/bcrypt (BF_crypt self-test overwrite) and GOST Final", "passphrase copies inside method scratch are covered by the unconditional wipe (a)"],
+    "explanation": "Source-level erasure obligations, each decided by CBMC on the real code: (a) do_crypt via crypt_r/crypt_rn from arbitrary internal/reserved/initialized: all zero after any call that reached a method (success or failure), bit-identical otherwise; (b) MD4/MD5/SHA-1/SHA-256/SHA-512/HMAC-SHA256 Final leave an all-zero context from an arbitrary context; (c) crypt_ra erases an undersized block before realloc (C14 harness); (d) crypt_gensalt_rn(rbytes=NULL) wipes the drawn bytes after the draw on success and on every failure path; (e) hmac_sha1_process_data wipes each stack temporary over its whole object and issues the expected number of wipes; (f) PBKDF2_SHA256 (SHA256_Transform havoc) does the same on its fast (c == 1) and generic paths at c == 1: three HMAC contexts, U, T, tmp32 and u.",
+    "functions": ["do_crypt", "crypt_r", "crypt_rn", "MD4_Final", "MD5_Final", "sha1_finish_ctx", "SHA256_Final", "SHA512_Final", "HMAC_SHA256_Final", "crypt_gensalt_rn", "get_random_bytes", "hmac_sha1_process_data", "PBKDF2_SHA256", "_HMAC_SHA256_Init", "_HMAC_SHA256_Update", "_HMAC_SHA256_Final", "SHA256_Pad_Almost"],
+    "bounds": {"setting": "<= 8 symbolic bytes (a)", "contexts": "arbitrary (b)", "HMAC key": "lengths 0, 20, 64, 65, 70 (e)", "PBKDF2": "concrete (passwdlen, saltlen, dkLen) grids covering both paths, key > 64, salt residue 51/52, partial last block; c == 1 (f; c in 1..3 symbolic gave no verdict in 15 min / 11 GB)", "count/output_size": "symbolic (d)"},
+    "outside": ["machine stack residue and compiler spill copies (not observable by a source-level checker)", "locals of yescrypt/bcrypt (BF_crypt self-test overwrite) and GOST Final", "passphrase copies inside method scratch are covered by the unconditional wipe (a)"],
     "assumptions": ["explicit_bzero is memset(0) that the compiler keeps (its purpose); the model logs pointer and length", "scaled data object at API level"],
     "trusted": [],
     "claim": "Each listed erasure obligation holds for every input/state within the bounds (SAT); a return inserted before the wipe, a shortened wipe length, a wipe of the wrong buffer or a removed explicit_bzero is a counterexample.",
@@ -43,6 +43,23 @@ def queries(tier, seed, build):
                   loops=[("^harness$", None, 72, False), ("sha1_finish_ctx", None, 66, False), ("sha1_process_bytes", None, 3, False),
                          ("hmac_sha1_process_data", None, 72, False)],
                   flags=["--object-bits", "12"], timeout=1200)
+        q.build = full
+        qs.append(q)
+    sha256_unit = ("alg-sha256.c", ["__CPROVER_file_local_alg_sha256_c_SHA256_Transform"], {"export_static": True})
+    # (PLEN, SLEN, DKLEN, MAXC): both paths with c in {1, 2}; generic path forced by a
+    # 52-byte salt residue / a partial last block with c == 1 possible; long key (> 64)
+    grid = [(8, 52, 32, 1), (8, 4, 40, 1), (70, 4, 64, 1)]
+    if tier == "thorough":
+        grid += [(64, 51, 64, 1), (3, 60, 1, 1)]
+    for pl, sl, dk, mc in grid:
+        q = Query("c09-pbkdf2-locals-p%d-s%d-d%d" % (pl, sl, dk), "wipe_pbkdf2.c", units=[sha256_unit],
+                  models=["libc.c", "block_log.c"], defs=["T_SHA256", "PLEN=%d" % pl, "SLEN=%d" % sl, "DKLEN=%d" % dk, "MAXC=%d" % mc, "MAXDK=128"],
+                  unwind=6,
+                  loops=[("^harness$", None, 130, False), ("Transform$", None, 130, False), ("PBKDF2_SHA256$", None, 34, False),
+                         ("SHA256_Update$", None, 4, False), ("HMAC_SHA256_Init$", None, 66, False),
+                         ("_vect$|^be64enc|^be32enc|^cpu_to_be", None, 10, False)],
+                  flags=["--object-bits", "12"], timeout=900)
+        q.loops_optional = True
         q.build = full
         qs.append(q)
     for name, prefix in (("yescrypt", "$y$"), ("sha512crypt", "$6$"), ("bcrypt", "$2b$"), ("sha1crypt", "$sha1"), ("descrypt", "")):
